@@ -687,9 +687,44 @@ func (c *ctx) keyAccepted(typeName, key string) Verdict {
 	return c.scalar(gen.KStr, t.Lit, t.Rules, gen.JStr(gen.QuoteJSON(key)))
 }
 
+// parentDeclaresAP: some type reached through allOf carries an additionalProperties rule.
+func (c *ctx) parentDeclaresAP(n *gen.Node, seen map[string]bool) bool {
+	a := n.Rule("allOf")
+	if a == nil {
+		return false
+	}
+	var names []string
+	if a.List {
+		for _, it := range a.Items {
+			names = append(names, unq(it.Lit))
+		}
+	} else {
+		names = []string{unq(a.Val)}
+	}
+	for _, name := range names {
+		if seen[name] {
+			continue
+		}
+		seen[name] = true
+		t, ok := c.env.Types[name]
+		if !ok {
+			continue
+		}
+		if t.Rule("additionalProperties") != nil || c.parentDeclaresAP(t, seen) {
+			return true
+		}
+	}
+	return false
+}
+
 func (c *ctx) additional(n *gen.Node, val *gen.JV) Verdict {
 	ap := n.Rule("additionalProperties")
 	if ap == nil {
+		// forbidden by default - unless a type the object inherits from declares the rule: whether an
+		// heir without the rule takes over its parent's is not in the statement
+		if c.parentDeclaresAP(n, map[string]bool{}) {
+			return Unspecified
+		}
 		return Reject
 	}
 	v := unq(ap.Val)
